@@ -4,7 +4,9 @@
    part of the statement.  (Proofs/RankUnbounded.v proves the statement for all n < 2^52 through Flocq; this sweep depends on
    no axiom beyond the kernel's primitive floats and is kept as independent evidence.) *)
 From Coq Require Import List ZArith Floats Lia.
-From GS Require Import Base.GoFloat Model.Rank Model.Stats.
+From GS Require Import Base.GoFloat.
+From GS Require Import Model.Rank.
+From GS Require Import Model.Stats.
 Import ListNotations.
 Local Open Scope Z_scope.
 
